@@ -103,3 +103,38 @@ def _known(known, prop, harness, desc):
         if k["kind"] == "finding" and k["property"] == prop and k["harness"] == harness and k["check"] == desc:
             return k
     return None
+
+
+def make_compile_check(prop, features):
+    """obligation 0 of C17: the crate builds in the given configuration (cargo check on the scratch copy, lints as in the repository)"""
+    def extra(base, tier, seed, known):
+        res = dict(obligations=1, discharged=0, evaluations=1, distinct_nontrivial=0, solver_s=0.0, samples=[], assumptions=[], violations=[], inconclusive=[], known=[])
+        crate = os.path.join(base, "crate")
+        cmd = ["cargo", "check", "--offline", "--lib", "--target-dir", os.path.join(base, "ct-" + "-".join(features)), "--features", ",".join(features)]
+        t0 = time.time()
+        p = subprocess.run(cmd, cwd=crate, env=ENV, stdout=subprocess.PIPE, stderr=subprocess.STDOUT, timeout=1200)
+        out = p.stdout.decode("utf-8", "replace")
+        name = "build:--features=" + ",".join(features)
+        desc = "crate compiles with --features " + ",".join(features)
+        sample = dict(harness=name, engine="cargo check", status="ok" if p.returncode == 0 else "failed", wall_s=round(time.time() - t0, 1))
+        if p.returncode == 0:
+            res["discharged"] = 1
+            res["distinct_nontrivial"] = 1
+            sample["verdict"] = "holds"
+        else:
+            errs = re.findall(r"^error[^\n]*\n\s*-->[^\n]*", out, re.M)
+            k = _known(known, prop, name, desc)
+            if k:
+                res["known"].append((name, desc, k["text"]))
+                sample["verdict"] = "known-finding"
+            else:
+                o = os.environ.get("VERIF_OUT", VERIF)
+                rp = os.path.join(o, "replays", "%s-build-%s.json" % (prop, "-".join(features)))
+                os.makedirs(os.path.dirname(rp), exist_ok=True)
+                json.dump(dict(property=prop, failed_checks=[desc], command="cd /repo && " + " ".join(cmd[:4] + cmd[6:]), errors=errs[:40], n_errors=len(errs)), open(rp, "w"), indent=1)
+                res["violations"].append((name, [desc], rp))
+                sample["verdict"] = "VIOLATION"
+                sample["errors"] = errs[:5]
+        res["samples"].append(sample)
+        return res
+    return extra
